@@ -308,9 +308,12 @@ const WRAPPERS: [&str; 12] = ["T", "Vec<T>", "[T; 2]", "&'static [T]", "Option<T
 const NODES: [&str; 4] = ["Aa", "Bb", "Cc", "Dd"];
 /// program with items Aa..Dd (n of them) whose references are the edges in `code` (bit i*n+j: i refers to j),
 /// every reference wrapped in WRAPPERS[w]; holder: 0 struct field, 1 tuple variants, 2 struct-variant fields, 3 mixed by node
-fn order_program(n: usize, code: u64, w: usize, holder: usize) -> String {
-    let mut src = String::from("#[typeshare]\npub struct Wrap<T> { pub t: T }\n");
+fn order_program(n: usize, code: u64, w: usize, holder: usize) -> String { order_program_renamed(n, code, w, holder, 0) }
+/// like order_program; bit i of `mask` puts #[serde(rename = "<Name>Renamed")] on item i, bit n on the generic `Wrap`
+fn order_program_renamed(n: usize, code: u64, w: usize, holder: usize, mask: u64) -> String {
+    let mut src = String::from(if (mask >> n) & 1 == 1 { "#[typeshare]\n#[serde(rename = \"WrapRenamed\")]\npub struct Wrap<T> { pub t: T }\n" } else { "#[typeshare]\npub struct Wrap<T> { pub t: T }\n" });
     for i in 0..n {
+        if (mask >> i) & 1 == 1 { src += &format!("#[serde(rename = \"{}Renamed\")]\n", NODES[i]); }
         let refs: Vec<String> = (0..n).filter(|j| (code >> (i * n + j)) & 1 == 1).map(|j| WRAPPERS[w].replace("T", NODES[j])).collect();
         let h = if holder == 3 { i % 3 } else { holder };
         match h {
@@ -325,6 +328,27 @@ fn dag_acyclic(n: usize, code: u64) -> bool {
     let mut done = vec![false; n];
     loop { let mut progress = false; for i in 0..n { if !done[i] && (0..n).all(|j| (code >> (i * n + j)) & 1 == 0 || (j != i && done[j])) { done[i] = true; progress = true; } } if !progress { break; } }
     done.iter().all(|x| *x)
+}
+
+// ---------------------------------------------------------------- C09: references use the name the definition is emitted under
+/// -> Some(description) when, after reconcile_aliases, some type expression still mentions the Rust name of a same-file type
+/// whose definition is emitted under a different (serde-renamed) name
+fn refs_case(src: &str) -> Option<String> {
+    use std::collections::BTreeMap;
+    let d = match parse_named(src, "f.rs") { Some(d) => d, None => return Some("no parsed data".into()) };
+    let mut crates: BTreeMap<CrateName, ParsedData> = BTreeMap::new();
+    let cn = d.crate_name.clone();
+    *crates.entry(cn.clone()).or_default() += d;
+    typeshare_core::reconcile::reconcile_aliases(&mut crates);
+    let data = crates.remove(&cn).unwrap();
+    let mut renamed: Vec<(String, String)> = vec![];
+    for s in &data.structs { if s.id.renamed != s.id.original { renamed.push((s.id.original.clone(), s.id.renamed.clone())); } }
+    for e in &data.enums { let i = &e.shared().id; if i.renamed != i.original { renamed.push((i.original.clone(), i.renamed.clone())); } }
+    for a in &data.aliases { if a.id.renamed != a.id.original { renamed.push((a.id.original.clone(), a.id.renamed.clone())); } }
+    for (item, mentions) in item_refs(&data) {
+        for m in mentions { if let Some((o, r)) = renamed.iter().find(|(o, _)| *o == m) { return Some(format!("{} still refers to `{}`, but that type is defined as `{}`", item, o, r)); } }
+    }
+    None
 }
 
 fn permutations(n: usize) -> Vec<Vec<usize>> {
@@ -430,6 +454,34 @@ fn main() {
             } }
             println!("no failing input among {} (cfg attribute set, target list, placement) triples: {} attribute sets up to depth 3", tried, all.len());
             std::process::exit(0);
+        }
+        Some("refs-search") | Some("refs-check") => {
+            let report = |n: usize, code: u64, w: usize, h: usize, mask: u64, m: String| { println!("WITNESS {{\"input\": {{\"items\": {}, \"edges_code\": {}, \"wrapper\": {}, \"holder\": {}, \"renamed_mask\": {}, \"wrapper_text\": {:?}}}, \"fails\": {:?}}}", n, code, w, h, mask, WRAPPERS[w], m); std::process::exit(1); };
+            if a[1] == "refs-check" {
+                let (n, code, w, h, mask): (usize, u64, usize, usize, u64) = (a[2].parse().unwrap(), a[3].parse().unwrap(), a[4].parse().unwrap(), a[5].parse().unwrap(), a[6].parse().unwrap());
+                let src = order_program_renamed(n, code, w, h, mask);
+                if let Ok(Some(m)) = panic::catch_unwind(move || refs_case(&src)) { report(n, code, w, h, mask, m); }
+                println!("input passes"); std::process::exit(0);
+            }
+            let mut tried = 0u64;
+            for n in 2..=3usize { for code in 0..(1u64 << (n * n)) {
+                if !dag_acyclic(n, code) || code == 0 { continue; }
+                for w in 0..WRAPPERS.len() { for h in 0..4 { for mask in 1..(1u64 << (n + 1)) {
+                    tried += 1;
+                    let src = order_program_renamed(n, code, w, h, mask);
+                    match panic::catch_unwind(move || refs_case(&src)) { Ok(None) => {}, Ok(Some(m)) => report(n, code, w, h, mask, m), Err(_) => report(n, code, w, h, mask, "panicked".into()) }
+                } } }
+            } }
+            println!("no failing input among {} programs (all DAGs on 2..3 items x {} reference positions x 4 item shapes x every subset of items carrying serde(rename))", tried, WRAPPERS.len());
+            std::process::exit(0);
+        }
+        Some("refs") => {
+            let src = std::fs::read_to_string(&a[2]).expect("read");
+            match panic::catch_unwind(move || refs_case(&src)) {
+                Ok(None) => { println!("{{\"file\": {:?}, \"references_ok\": true}}", a[2]); std::process::exit(0); }
+                Ok(Some(m)) => { println!("{{\"file\": {:?}, \"fails\": {:?}}}", a[2], m); std::process::exit(1); }
+                Err(_) => { println!("{{\"file\": {:?}, \"fails\": \"panicked\"}}", a[2]); std::process::exit(1); }
+            }
         }
         Some("order") => {
             // order <file.rs> : exit 1 when (acyclic reference graph) some definition precedes a definition it refers to
